@@ -191,7 +191,8 @@ func (f *Filter) FilterRequest(
 	item, ok := f.itemFromCache(ctx, cacheKey, host)
 	f.updateCacheLookupsMetrics(ok)
 	if ok {
-		return f.clonedResult(req.DNS, item.res), nil
+		// Don't wrap the error, because it's informative enough as is.
+		return f.clonedResult(req, item.res)
 	}
 
 	fam, ok := isFilterable(qt)
@@ -271,17 +272,26 @@ func isFilterable(qt dnsmsg.RRType) (fam netutil.AddrFamily, ok bool) {
 	return fam, fam != netutil.AddrFamilyNone
 }
 
-// clonedResult returns a clone of the result based on its type.  r must be nil,
-// [*internal.ResultModifiedRequest], or [*internal.ResultModifiedResponse].
-func (f *Filter) clonedResult(req *dns.Msg, r internal.Result) (clone internal.Result) {
+// clonedResult returns the result for req based on the cached result r.  r must
+// be nil, [*internal.ResultModifiedRequest], or
+// [*internal.ResultModifiedResponse].
+func (f *Filter) clonedResult(
+	req *internal.Request,
+	r internal.Result,
+) (clone internal.Result, err error) {
 	switch r := r.(type) {
 	case nil:
-		return nil
+		return nil, nil
 	case *internal.ResultModifiedRequest:
 		// Rewrite the request at hand, not the one that filled the cache.
-		return r.CloneForReq(f.cloner, req)
+		return r.CloneForReq(f.cloner, req.DNS), nil
 	case *internal.ResultModifiedResponse:
-		return r.CloneForReq(f.cloner, req)
+		// Build the response anew, since the blocking mode, the TTL, and other
+		// properties of the response depend on the one who makes the request,
+		// not on the one who has filled the cache.
+		fam, _ := isFilterable(req.QType)
+
+		return f.modifiedResponse(req, r.Rule, fam)
 	default:
 		panic(fmt.Errorf("hashprefix: unexpected type for result: %T(%[1]v)", r))
 	}
@@ -305,6 +315,16 @@ func (f *Filter) filteredResult(
 		}, nil
 	}
 
+	return f.modifiedResponse(req, internal.RuleText(matched), fam)
+}
+
+// modifiedResponse returns a filtered response for req made in accordance with
+// the protocol family and the message constructor of req.
+func (f *Filter) modifiedResponse(
+	req *internal.Request,
+	rule internal.RuleText,
+	fam netutil.AddrFamily,
+) (r internal.Result, err error) {
 	resp, err := f.respForFamily(req, fam)
 	if err != nil {
 		return nil, fmt.Errorf("filter %s: creating modified result: %w", f.id, err)
@@ -313,7 +333,7 @@ func (f *Filter) filteredResult(
 	return &internal.ResultModifiedResponse{
 		Msg:  resp,
 		List: f.id,
-		Rule: internal.RuleText(matched),
+		Rule: rule,
 	}, nil
 }
 
